@@ -7,7 +7,9 @@ pub fn finish(ctx: &Ctx) -> i32 {
     let viols = ctx.violations.lock().unwrap();
     let mut unknown = 0;
     let mut printed_known = std::collections::BTreeSet::new();
-    let verif_dir = std::env::var("VERIF_DIR").unwrap_or_else(|_| "/verif".into());
+    let verif_dir = std::env::var("VERIF_OUT")
+        .or_else(|_| std::env::var("VERIF_DIR"))
+        .unwrap_or_else(|_| "/verif".into());
     let replay_dir = format!("{verif_dir}/replay/{}", ctx.id);
     let mut shown = 0;
     for (n, v) in viols.iter().enumerate() {
